@@ -89,9 +89,14 @@ macro_rules! c07_cauchy {
                 let d = match Cauchy::<$f>::new(median, scale) { Ok(d) => d, Err(_) => return };
                 let x: $f = d.sample(&mut rng);
                 vassert!(rng.pos == 1, "Cauchy: number of words consumed depends on the parameters");
-                vassert!(flog_n() == 1, "Cauchy: expected exactly one tangent");
-                let (a, _, g) = flog_get(0);
-                vassert!(biteq64(a, ($pi * $su(w0)) as f64), "Cauchy: tangent is not taken of pi * u");
+                let g: f64 = if native() {
+                    num_traits::Float::tan($pi * $su(w0)) as f64
+                } else {
+                    vassert!(flog_n() == 1, "Cauchy: expected exactly one tangent");
+                    let (a, _, g) = flog_get(0);
+                    vassert!(biteq64(a, ($pi * $su(w0)) as f64), "Cauchy: tangent is not taken of pi * u");
+                    g
+                };
                 vassert!(biteq64(x as f64, (median + scale * (g as $f)) as f64), "Cauchy: sample is not median + scale * g");
                 kani::cover!(g == 2.0, "g = 2");
             }
